@@ -369,7 +369,7 @@ namespace pika::detail {
             {
                 for (std::size_t num_core = 0; num_core < num_cores_socket[n]; ++num_core)
                 {
-                    std::size_t num_core_pus = t.get_number_of_core_pus(num_core);
+                    std::size_t num_core_pus = t.get_number_of_core_pus(num_core + core_offset);
                     std::size_t pu_index = next_pu_index[num_core];
                     bool use_pu = false;
 
